@@ -164,6 +164,97 @@ fn doc_value(val: &GVal, ser_ty: Option<rbx_types::VariantType>) -> GVal {
     }
 }
 
+/// Long decimal spellings of 32-bit floats: a decimal just above / just below the exact midpoint of
+/// two neighbouring f32 values (docs/xml.md puts no limit on digits). The correctly rounded result
+/// is known by construction; a reader that rounds twice (decimal -> f64 -> f32) lands on the wrong
+/// neighbour for half of them.
+#[derive(Clone, Debug, Serialize, Deserialize)]
+pub struct FloatSpelling {
+    pub bits: u32,
+    pub above: bool,
+    /// 0 = <float>, 1 = a Vector3 component, 2 = a UDim scale, 3 = Color3 component
+    pub place: u8,
+    pub exponent_form: bool,
+}
+
+fn float_spelling_body(c: &FloatSpelling, ctx: &mut CaseCtx) -> PropResult {
+    // a positive normal f32 of moderate size, and its upper neighbour
+    let exp = 127 - 20 + ((c.bits >> 23) % 50);
+    let lo_bits = (c.bits & 0x007f_ffff) | (exp << 23);
+    let lo = f32::from_bits(lo_bits);
+    let hi = f32::from_bits(lo_bits + 1);
+    let mid = (lo as f64 + hi as f64) / 2.0; // exact: 25 significant bits
+    let exact = format!("{mid:.80}"); // exact decimal expansion, zero padded
+    let spelling = if c.above {
+        format!("{exact}1")
+    } else {
+        // (exact * 10 - 1) on the digit string: borrow from the right
+        let mut d: Vec<u8> = format!("{exact}0").into_bytes();
+        let mut i = d.len();
+        loop {
+            i -= 1;
+            match d[i] {
+                b'.' => continue,
+                b'0' => d[i] = b'9',
+                _ => {
+                    d[i] -= 1;
+                    break;
+                }
+            }
+        }
+        String::from_utf8(d).unwrap()
+    };
+    let spelling = if c.exponent_form {
+        // same number, written with an exponent: shift the point three places
+        format!("{}e3", shift_point_left(&spelling, 3))
+    } else {
+        spelling
+    };
+    let want = if c.above { hi } else { lo };
+    ctx.label(if (lo_bits & 1 == 0) == c.above { "double_rounding_would_pick_the_other_neighbour" } else { "double_rounding_agrees" });
+    ctx.nontrivial();
+    let element = match c.place % 4 {
+        0 => format!("<float name=\"P\">{spelling}</float>"),
+        1 => format!("<Vector3 name=\"P\"><X>1</X><Y>{spelling}</Y><Z>-2.5</Z></Vector3>"),
+        2 => format!("<UDim name=\"P\"><S>{spelling}</S><O>7</O></UDim>"),
+        _ => format!("<Color3 name=\"P\"><R>{spelling}</R><G>0</G><B>1</B></Color3>"),
+    };
+    let doc = format!("<roblox version=\"4\"><Item class=\"ZzFloats\" referent=\"RBX0\"><Properties><string name=\"Name\">f</string>{element}</Properties></Item></roblox>");
+    let dom = super::c02::read_xml(doc.as_bytes(), Pairing::Unknown.options().1).map_err(|mut f| {
+        f.key = format!("foreign-xml:{}", f.key);
+        f.msg = format!("reader rejected a float spelled with {} digits: {}", spelling.len(), f.msg);
+        f
+    })?;
+    let inst = dom.root().children().first().and_then(|r| dom.get_by_ref(*r));
+    let got: Option<f32> = inst.and_then(|i| i.properties.get(&rbx_dom_weak::ustr("P"))).and_then(|v| match v {
+        rbx_types::Variant::Float32(x) => Some(*x),
+        rbx_types::Variant::Vector3(v) => Some(v.y),
+        rbx_types::Variant::UDim(u) => Some(u.scale),
+        rbx_types::Variant::Color3(c) => Some(c.r),
+        _ => None,
+    });
+    let Some(got) = got else { fail!("foreign-xml:float-spelling:property-missing", "property P did not come back from {element}") };
+    ensure!(
+        got.to_bits() == want.to_bits(),
+        "foreign-xml:float-spelling:not-nearest",
+        "{spelling} lies {} the midpoint of {lo:?} and {hi:?}; the nearest f32 is {want:?} ({:#010x}), the reader gave {got:?} ({:#010x})",
+        if c.above { "just above" } else { "just below" },
+        want.to_bits(),
+        got.to_bits()
+    );
+    Ok(())
+}
+
+fn shift_point_left(s: &str, k: usize) -> String {
+    let (int, frac) = s.split_once('.').unwrap_or((s, ""));
+    let mut int = int.to_string();
+    while int.len() <= k {
+        int.insert(0, '0');
+    }
+    let cut = int.len() - k;
+    format!("{}.{}{}", &int[..cut], &int[cut..], frac)
+}
+
 fn writer_body(case: &WriterCase, ctx: &mut CaseCtx) -> PropResult {
     let f = &case.forest;
     classify_forest(f, ctx);
@@ -498,6 +589,14 @@ pub fn run(ctx: &Ctx) -> PropertyReport {
             writer_body(&WriterCase { forest: super::c01::large_forest(c), write_unknown: true }, ctx)
         });
         r.notes.push("the writer's documents for values longer than 64 KiB / 1 MiB, tables of 257 entries, names of up to 70 000 characters and columns of empty values".into());
+        rep.push(r);
+    }
+    if sub.runs("reader-float-spellings") {
+        let cases = ctx.cfg.cases(40_000, 4_000_000);
+        let strat = || (any::<u32>(), any::<bool>(), 0u8..4, any::<bool>()).prop_map(|(bits, above, place, exponent_form)| FloatSpelling { bits, above, place, exponent_form });
+        let mut r = ctx.run_prop("reader-float-spellings", cases, strat, float_spelling_body);
+        r.floor("double_rounding_would_pick_the_other_neighbour", cases / 4);
+        r.notes.push("decimals of 80+ digits just above / below the exact midpoint of two neighbouring f32 values, as <float>, Vector3 / UDim / Color3 components, plain and with an exponent; the nearest f32 is known by construction".into());
         rep.push(r);
     }
     if sub.runs("reader") {
